@@ -143,6 +143,17 @@ def run_property(pid, modname, tier, seed=0, procs=None):
         # phase 1: jobs that want sharding are expanded breadth first to a frontier of prefixes
         first = [(modname, jd[j.name], None, "expand" if j.split else "full") for j in jobs]
         second = []
+        # Fail fast: once a violation has been confirmed (replayed on the real code) and some more work has been given
+        # the chance to finish, the remaining exploration is abandoned - a reproduced counterexample is decisive, and a
+        # change that breaks a property often also makes the remaining queries much slower.  SYMX_NO_FAILFAST=1 disables.
+        failfast = not os.environ.get("SYMX_NO_FAILFAST")
+        t_first_violation = [None]
+
+        def _stop_now(res):
+            if res.get("confirmed") and t_first_violation[0] is None:
+                t_first_violation[0] = time.time()
+            return failfast and t_first_violation[0] is not None and time.time() - t_first_violation[0] > 60
+        stopped = False
         for res in pool.imap_unordered(_work, first):
             results.append(res)
             _progress(res)
@@ -151,10 +162,20 @@ def run_property(pid, modname, tier, seed=0, procs=None):
                 for ch in _chunks(res["pending"], max(procs * 2, len(res["pending"]) // 2)):
                     second.append((modname, j, ch, "shard"))
                 res["pending"] = []
-        for res in pool.imap_unordered(_work, second):
-            results.append(res)
-            _progress(res)
-    return finish(pid, tier, seed, meta, jd, results, t_start)
+            if _stop_now(res):
+                stopped = True
+                break
+        if not stopped:
+            for res in pool.imap_unordered(_work, second):
+                results.append(res)
+                _progress(res)
+                if _stop_now(res):
+                    stopped = True
+                    break
+        if stopped:
+            pool.terminate()
+            print("stopping early: a violation was confirmed, the remaining exploration is abandoned", file=sys.stderr)
+    return finish(pid, tier, seed, meta, jd, results, t_start, abandoned=stopped)
 
 
 def _progress(res):
@@ -166,7 +187,7 @@ def _progress(res):
         len(res.get("pending", [])), "FATAL" if "fatal" in res else ""), file=sys.stderr, flush=True)
 
 
-def finish(pid, tier, seed, meta, jd, results, t_start):
+def finish(pid, tier, seed, meta, jd, results, t_start, abandoned=False):
     agg = core.Stats()
     covers, labels, dlabels = {}, {}, {}
     functions = set()
@@ -216,6 +237,8 @@ def finish(pid, tier, seed, meta, jd, results, t_start):
             problems.append("cover point never reached: " + c)
     if agg["reached_end"] == 0:
         problems.append("no path reached the end of a scenario (vacuous)")
+    if abandoned:
+        problems.append("exploration abandoned after the first confirmed violation (fail fast): counts are partial")
 
     # ---- violations vs known findings
     known = load_known()
